@@ -163,6 +163,10 @@ func wireGen(v *verifRun) {
 			a.FSvc = verifHex([]byte{'a', 0, 'b', 0})
 			a.TSvc = verifHex([]byte{})
 		}
+		if v.rng.Intn(8) == 1 { // inside the domain: a zero byte in the middle or at the start of a name, none at the end
+			a.FSvc = verifHex([]byte{'a', 'b', 0, 'c', 'd'})
+			a.TSvc = verifHex([]byte{0, 'x'})
+		}
 		a.HF = wireNode.AddNameHash(from)
 		a.HT = wireNode.AddNameHash(to)
 		v.do(wireApply, "enc", a)
@@ -570,8 +574,9 @@ func pktGen(v *verifRun) {
 			}
 		}
 		at := v.rng.Intn(k)
+		fsvcPool := []string{"a", "svc1", "eightchr", "ping", "ab\x00cd", "\x00lead"}
 		p := pktPacketArg{From: verifHex([]byte(ids[v.rng.Intn(k)])), To: verifHex([]byte(ids[v.rng.Intn(k)])),
-			FSvc: verifHex([]byte(pktSvcs[v.rng.Intn(4)])), TSvc: verifHex([]byte(pktSvcs[v.rng.Intn(len(pktSvcs))])),
+			FSvc: verifHex([]byte(fsvcPool[v.rng.Intn(len(fsvcPool))])), TSvc: verifHex([]byte(pktSvcs[v.rng.Intn(len(pktSvcs))])),
 			TTL: v.pick([]int{0, 0, 1, 1, 2, 3, 4, 5, 30, 255}), Data: verifHex(v.bytesN(v.rng.Intn(20)))}
 		if string(verifUnhex(p.FSvc)) == "ping" && string(verifUnhex(p.TSvc)) == "ping" {
 			p.FSvc = verifHex([]byte("a")) // ping→ping recursion is exercised (in a child process) by the C07 check
